@@ -157,13 +157,14 @@ Definition refine_side (E : penv) (me : Refine.method) (cv : cvol) (d : dataset)
 
 (* ------------------------------------------------------------------ validation *)
 
-(* the arrays written by disparity_checking are materialised; the disparity map is the same object *)
-Definition freeze_xc (d : dataset) : dataset :=
-  mkDS (ds_nr d) (ds_nc d) (ds_disp d) (memo2 (ds_nr d) (ds_nc d) (ds_mask d))
-       (map (memo2 (ds_nr d) (ds_nc d)) (ds_bands d)) (ds_dmin d) (ds_dmax d) (ds_offset d).
-
-(* validation_.disparity_checking(me, other) *)
-Definition chk (thr : Q) (me other : dataset) : dataset := freeze_xc (xcheck thr me other).
+(* validation_.disparity_checking(me, other): Model/CrossCheck.v xcheck; the two arrays it writes (the validity
+   mask, the appended confidence band) are materialised, the disparity map and the earlier bands are the
+   same objects *)
+Definition chk (thr : Q) (me other : dataset) : dataset :=
+  let x := xcheck thr me other in
+  mkDS (ds_nr x) (ds_nc x) (ds_disp x) (memo2 (ds_nr x) (ds_nc x) (ds_mask x))
+       (ds_bands me ++ [memo2 (ds_nr x) (ds_nc x) (last (ds_bands x) (fun _ _ => CNan))])
+       (ds_dmin x) (ds_dmax x) (ds_offset x).
 (* interpolate_.interpolated_disparity(d) *)
 Definition itp_ds (m : Interp.method) (d : dataset) : dataset := interp_ds m d.
 
